@@ -183,7 +183,8 @@ class Emit:
             else:
                 self.ops.append(f"num_bits {s} {N.hex16(t[1])}")
         elif k == "s":
-            self.ops.append(f"str {s} {hx(t[1])}")
+            # aws_json_value_new_string (cursor) or aws_json_value_new_string_from_c_str
+            self.ops.append(f"{'str' if self.n % 3 else 'cstr_str'} {s} {hx(t[1])}")
         elif k == "a":
             self.ops.append(f"new_arr {s}")
             for x in t[1]:
@@ -217,8 +218,9 @@ def access_case(rng):
     """add / get / has / remove on one object and one array, keys differing only in case,
     exact duplicates, indices around the size"""
     e = Emit()
-    e.ops += ["new_obj o", "new_arr a"]
+    e.ops += ["new_obj o", "new_arr a", "new_obj w"]
     keys = []
+    rehomed = 0
     size = 0
     for _ in range(rng.randint(3, 25)):
         r = rng.random()
@@ -237,6 +239,14 @@ def access_case(rng):
             if rng.random() < 0.3:
                 k = k.swapcase()
             e.ops.append(rng.choice([f"get o {hx(k)}", f"has o {hx(k)}", f"dupget o {hx(k)} g"]))
+            if e.ops[-1].startswith("dupget") and rng.random() < 0.7:
+                # a duplicated member still carries its old key: adding it elsewhere must replace (and release) that key
+                rehomed += 1
+                e.ops += [rng.choice([f"add w {hx(b'r%d' % rehomed)} g", "arr_add a g"]), "destroy g", "print w compact", "dump w"]
+                if e.ops[-4] == "arr_add a g":
+                    size += 1
+                    # the element still carries a key internally: an array must not answer object queries with it
+                    e.ops += [f"has a {hx(k)}", f"get a {hx(k)}", f"remove a {hx(k)}", "dump a"]
         elif r < 0.55 and keys:
             k = rng.choice(keys)
             if rng.random() < 0.3:
@@ -255,8 +265,13 @@ def access_case(rng):
             e.ops.append(f"arr_remove a {i}")
             if isinstance(i, int) and i < size:
                 size -= 1
+        elif r < 0.93:
+            tgt = rng.choice(["o", "a", "a", "w"])
+            st = rng.choice(["-", "-", "0", "1", "2", str(rng.randint(0, 30))])
+            fl = rng.choice(["-", "-", "-", "0", "1", str(rng.randint(0, 30))])
+            e.ops.append(f"iter {tgt} {st} {fl}")
         elif r < 0.95:
-            e.ops.append(rng.choice(["arr_size a", "arr_size o", "get a 6b", "has a 6b", "remove a 6b", "arr_get o 0", "arr_remove o 0"]))
+            e.ops.append(rng.choice(["arr_size a", "arr_size o", "iter g - -", "get a 6b", "has a 6b", "remove a 6b", "arr_get o 0", "arr_remove o 0"]))
         else:
             v = e.build(gen_scalar(rng))
             e.ops.append(rng.choice([f"add a 6b {v}", f"arr_add o {v}", f"add {v} 6b a"]))
@@ -367,6 +382,13 @@ def parse_case(rng):
               "reparse p formatted r1", "dump r1", "dup p d0", "dump d0"]
     if not has_dup_keys(t):
         e.ops += ["cmp p r0 1", "cmp d0 p 1"]
+    if t[0] == "o" and t[1]:
+        k = rng.choice(t[1])[0]
+        e.ops += [f"get p {hx(k)}", f"has p {hx(k.swapcase())}", f"get p {hx(k.swapcase())}", "iter p - -", f"iter p {rng.randint(0, 3)} -"]
+        if rng.random() < 0.5:
+            e.ops += [f"remove p {hx(k)}", "dump p", f"has p {hx(k)}"]
+    elif t[0] == "a":
+        e.ops += [f"iter p {rng.choice(['-', '0', '1'])} {rng.choice(['-', '-', '0', '2'])}", "arr_size p"]
     return e.case({"kind": "parse", "expect": dump_tree(t)})
 
 
@@ -396,15 +418,21 @@ def malformed_case(rng):
             else:
                 base = base[:pos]
         text = bytes(base)
+    elif r < 0.6:
+        # byte-order-mark look-alikes in front of valid text: only exactly EF BB BF (and at least one more byte) is skipped
+        pre = bytes(rng.choice([[0xEF, 0xBB, 0xBF], [0xEF, 0xBB], [0xEF], [0xEF, 0xBB, rng.randrange(256)], [0xEF, rng.randrange(256), 0xBF],
+                                [rng.randrange(256), 0xBB, 0xBF], [0xEF, 0xBB, 0xBF, 0xEF, 0xBB, 0xBF], [0x20, 0xEF, 0xBB, 0xBF]]))
+        text = pre + py_text(rng, gen_tree_for_text(rng, rng.choice([0, 1, 2])))
     elif r < 0.7:
         text = bytes(rng.choice(b'[]{}",:\\u0123456789dDaAfF-+.eEtruefalsn \n\x00\xff') for _ in range(rng.randint(0, 24)))
     elif r < 0.85:
         text = rng.choice([
-            b"", b"\0", b" ", b"\xef\xbb\xbf", b"\xef\xbb\xbf1", b"\xef\xbb\xbf[]", b"nul", b"nulll", b"tru", b"-", b"-e", b"-.", b"-.5", b"+1", b".5", b"1.",
+            b"", b"\0", b" ", b"\xef\xbb\xbf", b"\xef\xbb\xbf1", b"\xef\xbb\xbf[]", b"\xef\xbb[1]", b"\xef\xbb 1", b"\xef\xbf\xbf1", b"\xef[1]",
+            b"\xef\xbb\xbe[1]", b"\xef\xbb\xbf\xef\xbb\xbf1", b" \xef\xbb\xbf1", b"\xef\xbb\xbf 1", b"\xef\xbb\xbf", b"\xef\xbb\xbf\x00", b"\xbb\xbf1", b"\xef\xbb\xbfx", b"nul", b"nulll", b"tru", b"-", b"-e", b"-.", b"-.5", b"+1", b".5", b"1.",
             b"1.e5", b"1e", b"1e+", b"0x10", b"007", b"-0", b"-00", b"1e999", b"-1e999", b"1" * 70, b"1" * 62 + b".5", b"1" * 63 + b",",
             b'"', b'"\\', b'"\\"', b'"\\u', b'"\\u12"', b'"\\u123"', b'"\\uD800"', b'"\\uD800\\u0041"', b'"\\uDC00"', b'"\\uD800\\uDC0"',
             b'"\\uD83D\\uDE00"', b'"\\ud83d\\ude00"', b'"\\uDBFF\\uDFFF"', b'"\\u0000abc"', b'"ab\\uZZZZcd"', b'"\\u00e9\\u20ac"', b'"\\x41"', b'"\\a"',
-            b'"\\u\\"ab"x"', b'"a\nb"', b'"\x7f\x80\xff"',
+            b'"\\u\\"ab"x"', b'"\\u018\\\\"', b'"\\u\\\\\\\\\\"', b'"\\uD800\\u018\\\\"', b'"ab\\u00\\\\\\"', b'"a\nb"', b'"\x7f\x80\xff"',
             b"[", b"[1", b"[1,", b"[1,]", b"[,1]", b"[1 2]", b"[1,2", b"[]]", b"{", b'{"a"', b'{"a":', b'{"a":1', b'{"a":1,', b'{"a":1,}', b"{1:2}", b'{"a" 1}',
             b'{"a":1 "b":2}', b'{"a":1,"a":2}', b'{"a":1,"A":2}', b'{"":0}', b"[1,2]x", b"[1,2],", b"{}{}", b"[ \t\r\n]", b"{ \n }", b"[\x01]",
         ])
@@ -615,6 +643,23 @@ def dump_json_compact(t):
     if k == "a":
         return b"[" + b",".join(dump_json_compact(x) for x in t[1]) + b"]"
     return b"{" + b",".join(b'"' + key + b'":' + dump_json_compact(x) for key, x in t[1]) + b"}"
+
+
+def align_case(rng, pad):
+    """every kind of token placed around cJSON's first print-buffer boundary (256 bytes) and the boundary after the
+    first growth: an `ensure()` that reserves one byte too few shows up as a heap overflow under the exact-size allocator"""
+    e = Emit()
+    toks = [("b", False), ("b", True), ("z",), ("n", d2b(float(rng.choice([7, -12345, 2147483647])))), ("n", d2b(0.5)), ("s", b"q\n"),
+            ("a", []), ("o", []), ("o", [(b"k", ("a", [("z",)]))]), ("s", b"")]
+    rng.shuffle(toks)
+    second = ("s", b"y" * rng.randint(200, 330))
+    t = ("a", [("s", b"x" * pad)] + toks + [second] + toks[::-1])
+    if rng.random() < 0.5:
+        t = ("o", [(b"p", ("s", b"x" * max(pad - 6, 0)))] + [(b"m%d" % i, x) for i, x in enumerate(toks)] + [(b"q", second)] +
+                  [(b"n%d" % i, x) for i, x in enumerate(toks[::-1])])
+    s = e.build(t)
+    e.ops += [f"print {s} compact", f"print {s} formatted", f"reparse {s} compact r0", "dump r0"]
+    return e.case({"kind": "align", "pad": pad})
 
 
 def dump_tree(t):
